@@ -7,12 +7,12 @@ CHECKS = {
  "C12": dict(
   level="model_checking", design="6/C12", engine="sched",
   technique="stateless schedule exploration: preemption-bounded baton scheduler over real threads racing on the real lazycompile wrapper (stub + real Numba compilation), controlled dask scheduler enumerating task orders with bounded deviations, virtual prange (AST transform, one cooperative thread per row); exhaustive configuration product (chunkings x layouts x schedulers x thread counts)",
-  text="All interleavings at line granularity / preemption-bounded at bytecode granularity for 2-3 threads; dask task orders with <=1 (2) deviations for 17 accessor operations; all 32 (y,x) chunkings x 3 (6) layouts x 2 (7) schedulers; all 31 time chunkings (raise or equal eager); pixel permutations; thread counts 1..16; prange body interleavings with <=2 (3) preemptions. Oracle: eager / sequential result, bit-exact. The thread count a kernel asks for (numba.get_num_threads) is enumerated 1..6 on 1..7 rows in the virtualised source. Joint graphs: 15 operation pairs (two auxiliary inputs on one lazy cube; one call on two cubes) evaluated with dask.compute(a, b) and as a - b, 3 chunkings x 2 schedulers, each against its in-memory result. float32 cubes with scalar arguments float32 cannot represent; 26 joint pairs varying one input at a time; other ranks and extents (1-d, 2-d, 4-d, single pixel / row / column); three calls on one object with the input checked untouched.",
+  text="All interleavings at line granularity / preemption-bounded at bytecode granularity for 2-3 threads; dask task orders with <=1 (2) deviations for 17 accessor operations; all 32 (y,x) chunkings x 3 (6) layouts x 2 (7) schedulers; all 31 time chunkings (raise or equal eager); pixel permutations; thread counts 1..16; prange body interleavings with <=2 (3) preemptions. Oracle: eager / sequential result, bit-exact. The thread count a kernel asks for (numba.get_num_threads) is enumerated 1..6 on 1..7 rows in the virtualised source. Joint graphs: 15 operation pairs (two auxiliary inputs on one lazy cube; one call on two cubes) evaluated with dask.compute(a, b) and as a - b, 3 chunkings x 2 schedulers, each against its in-memory result. float32 cubes with scalar arguments float32 cannot represent; 26 joint pairs varying one input at a time; other ranks and extents (1-d, 2-d, 4-d, single pixel / row / column); three calls on one object with the input checked untouched. A dask-backed object loaded in place; in-memory data edited in place between calls; joint graphs over two time labellings of the same stored data.",
   note="Native-code interleavings (GIL-free gufunc loops, Numba threading layer) are not controllable from Python; configurations are enumerated there. The free-running lazy pass is sampling and reported as a supplement."),
  "C13": dict(
   level="translation_validation", design="6/C13", engine="sse-product",
   technique="bounded exhaustive differential execution of every discovered @njit/@guvectorize program (35) compiled vs its own source under CPython (numba types -> NumPy dtypes, callees compiled) on exhaustive word sets per dtype; SciPy special functions in nopython code vs scipy.special on log grids",
-  text="35 programs, ~40k (400k) input cases, 120k special-function evaluations; tolerances as stated in the property; selection ties decided by the C04/C05 reference. Every integer-typed program also over the whole range of its input dtypes (int16 / uint8 / uint16 / int32 / int64 extremes). Gaps also written as NaN / +inf / -inf; interpreter-only exceptions outside a white-list of benign run-time differences are disagreements. Nearly constant series of 8..200 values (reduction order).",
+  text="35 programs, ~40k (400k) input cases, 120k special-function evaluations; tolerances as stated in the property; selection ties decided by the C04/C05 reference. Every integer-typed program also over the whole range of its input dtypes (int16 / uint8 / uint16 / int32 / int64 extremes). Gaps also written as NaN / +inf / -inf; interpreter-only exceptions outside a white-list of benign run-time differences are disagreements. Nearly constant series of 8..200 values (reduction order). Exceptions raised by the program's own source under the interpreter are compared as behaviour; V-curve grids with the optimum in the first interval.",
   note="An overflow under the interpreter is NumPy's warn-and-wrap value and is compared; inputs on which the interpreter raises a Python-level error compiled code cannot raise (math domain errors) are out-of-domain and counted; legacy ops/whit.py is excluded (not imported by the package)."),
  "C14": dict(
   level="exploration", design="6/C14", engine="sse-product",
@@ -32,7 +32,7 @@ CHECKS = {
  "C09": dict(
   level="exploration", design="6/C09", engine="sse-product",
   technique="bounded exhaustive enumeration of time axes (subsets of a 9-position lattice) x all begin/end dates on/between/before/after steps, and of set partitions x label spellings for groups; index reference + differential grouped vs per-group ungrouped path",
-  text="Window membership, attrs, ValueError for every invalid window and only those, grouped == per-group ungrouped, spelling invariance, single group == ungrouped, to_linspace / get_calibration_indices directly, 36 dekad groups; axes stamped at 10:30 with begin/end at three times of day; far-away sentinel dates (years 1..9999); call sequences in one process over 21 axes with equal extent. Influence oracle at the kernels: an observation outside the calibration window never influences the indices of other positions (every pixel x window x position, ungrouped and two groupings). Axes of 32767..40000 steps (one group == ungrouped, two groups == per-group, windows beyond position 32767). Every third window also on the dask-backed cube; argument spellings (date types, label containers).",
+  text="Window membership, attrs, ValueError for every invalid window and only those, grouped == per-group ungrouped, spelling invariance, single group == ungrouped, to_linspace / get_calibration_indices directly, 36 dekad groups; axes stamped at 10:30 with begin/end at three times of day; far-away sentinel dates (years 1..9999); call sequences in one process over 21 axes with equal extent. Influence oracle at the kernels: an observation outside the calibration window never influences the indices of other positions (every pixel x window x position, ungrouped and two groupings). Axes of 32767..40000 steps (one group == ungrouped, two groups == per-group, windows beyond position 32767). Every third window also on the dask-backed cube; argument spellings (date types, label containers). Every window also with each pixel alone and the pixels in reverse order.",
   note="Axes of 5 steps (quick) / 3..6 steps (thorough) for windows; 6..7 (9) steps for groups."),
  "C10": dict(
   level="model_checking", design="6/C10", engine="sse-trie",
@@ -42,7 +42,7 @@ CHECKS = {
  "C11": dict(
   level="model_checking", design="6/C11", engine="calendar",
   technique="complete enumeration of the finite state space: all 3,652,059 days and 359,964 dekads with successor transitions, every clause of the statement evaluated in every state; accessor vs scalar class element-wise",
-  text="Not bounded: the whole calendar 0001..9999 is explored in every run (quick and thorough). Accessor on every axis that is a subset of <= 4 (5) instants of a 13-instant lattice over four dekads, three orders. Microsecond axes: the first and last two microseconds of every dekad of 19 years over 0001..9998.",
+  text="Not bounded: the whole calendar 0001..9999 is explored in every run (quick and thorough). Accessor on every axis that is a subset of <= 4 (5) instants of a 13-instant lattice over four dekads, three orders. Microsecond axes: the first and last two microseconds of every dekad of 19 years over 0001..9998. Axes holding the same integers in different datetime64 units, every ordered pair of units.",
   note="Reference = datetime / calendar from the standard library."),
  "C15": dict(
   level="model_checking", design="6/C15", engine="sse-trie",
@@ -52,27 +52,27 @@ CHECKS = {
  "C16": dict(
   level="exploration", design="6/C16", engine="sse-product",
   technique="bounded exhaustive enumeration of zone x value assignments for rasters of 1..5/6 pixels x num_zones x dtype, boundary zone sizes 2^24-1, 2^24, 2^24+2, 25M, 1000 zones, all 720 pixel permutations, accessor numpy/dask",
-  text="Exact mean (2 ulp of output dtype) and exact count, NaN/0 for empty zones, zone-nodata pixels excluded, rearrangement invariance; zone rasters of every integer dtype with fill values outside int16. Attribute histories of nodata on the value cube and on the zone raster (depth 3). Value rasters of eight dtypes over their whole range; five zone rasters on one lazy cube evaluated in one graph (joint_zones). nodata markers that float32 cannot represent, at the kernel and through the accessor; argument spellings.",
+  text="Exact mean (2 ulp of output dtype) and exact count, NaN/0 for empty zones, zone-nodata pixels excluded, rearrangement invariance; zone rasters of every integer dtype with fill values outside int16. Attribute histories of nodata on the value cube and on the zone raster (depth 3). Value rasters of eight dtypes over their whole range; five zone rasters on one lazy cube evaluated in one graph (joint_zones). nodata markers that float32 cannot represent, at the kernel and through the accessor; argument spellings. In-place edits of the cube (NaN / nodata / value) between calls, every order of up to three.",
   note="Large zones use integer-valued pixels (exact float64 sums)."),
  "C18": dict(
   level="model_checking", design="6/C18", engine="sse-trie",
   technique="explicit-state exploration of the binary input trie (length 1..16/18) with a run-length automaton and edge relations; long-run family beyond 255 / 65535; non-binary alphabet; croo under all permutations of the stored time order",
-  text="All 131070 binary words, runs up to 1000 (70000), all 720 stored orders for words up to length 6, time axes before / across 1970, one object relabelled in place through all 120 orders. croo on cubes of 257..1000 steps holding every combination of current run length x isolated 1 at 64..768 steps back, three storage orders, numpy and dask. lroo through the accessor on 3 900 small cubes (every word alone, pairs, triples) in four layouts incl. views and dask. croo_long also runs every pixel as a cube of its own and the cube without its long runs.",
+  text="All 131070 binary words, runs up to 1000 (70000), all 720 stored orders for words up to length 6, time axes before / across 1970, one object relabelled in place through all 120 orders. croo on cubes of 257..1000 steps holding every combination of current run length x isolated 1 at 64..768 steps back, three storage orders, numpy and dask. lroo through the accessor on 3 900 small cubes (every word alone, pairs, triples) in four layouts incl. views and dask. croo_long also runs every pixel as a cube of its own and the cube without its long runs. Four time labellings of one stored dask array evaluated in one graph.",
   note="croo is only claimed for binary series (the property's quantifier)."),
  "C19": dict(
   level="model_checking", design="6/C19", engine="sse-trie",
   technique="exhaustive exploration of the generator: axis length 1..8/12 x n x begin x end x lookup method x reducer x dim kind, every next() compared with the reference window list; off-axis labels must raise ValueError",
-  text="Every configuration inside the bound, time and numeric dims (incl. fractional labels on integer axes), NaN data; int16 / int32 / uint8 / bool / float32 cubes. Every placement of one or two NaN positions x every on-axis begin / end x n x sum / mean on both dimension kinds. Every history of <= 3 steps over five calls along two dimensions and an in-place relabel on one object; argument spellings.",
+  text="Every configuration inside the bound, time and numeric dims (incl. fractional labels on integer axes), NaN data; int16 / int32 / uint8 / bool / float32 cubes. Every placement of one or two NaN positions x every on-axis begin / end x n x sum / mean on both dimension kinds. Every history of <= 3 steps over five calls along two dimensions and an in-place relabel on one object; argument spellings. float32 / float16 / float64 cubes with NaN cells.",
   note="Lookup methods follow pandas get_indexer semantics; nearest ties accept either neighbour."),
  "C20": dict(
   level="exploration", design="6/C20", engine="sse-product",
   technique="bounded exhaustive enumeration of templates (n obs 2..4/5, gaps 0..3, head/tail) x all contiguous labelings x value words; reference curve at lambda=1e-5 (refined float, cross-checked with rationals), period means, tie band; inputs unmodified; accessor; long regular families",
-  text="158 templates x 2^(L-1) labelings (increasing, descending and zig-zag label ids) x value words; lines in day number give exact period means. Template stored as bool / uint8 / int8 / int16 / int32 / int64 / float32 / float64 with sparse irregular marks. Five requests (labelings / templates) on one lazy cube evaluated in one graph; argument spellings.",
+  text="158 templates x 2^(L-1) labelings (increasing, descending and zig-zag label ids) x value words; lines in day number give exact period means. Template stored as bool / uint8 / int8 / int16 / int32 / int64 / float32 / float64 with sparse irregular marks. Five requests (labelings / templates) on one lazy cube evaluated in one graph; argument spellings. Daily axes with unmarked tails of 0..20 days and heads of 0 / 3 / 9 days.",
   note="Either neighbour accepted within 1e-6 of a rounding tie."),
  "C01": dict(
   level="exploration", design="6/C01", engine="sse-product",
   technique="bounded exhaustive enumeration (n 4..9/12 x all 0/1 weight patterns x lambda grid x impulse basis): the real ws2d source executed on Fractions vs an independent dense rational solve; compiled ws2d vs the exact solution",
-  text="Every weight pattern with >=2 positive weights up to the length bound, 7 lambdas over 1e-6..1e8 and a basis of right-hand sides; exact clause decided without tolerance on the real source, float clause against the exact rational solution; long series (n 50..220/400) with zero-weight runs of up to 200 cells; lambda given as int / NumPy integer / float32. 89 listed cases at lambda=1e8 exceed 1e-6 and are known findings.",
+  text="Every weight pattern with >=2 positive weights up to the length bound, 7 lambdas over 1e-6..1e8 and a basis of right-hand sides; exact clause decided without tolerance on the real source, float clause against the exact rational solution; long series (n 50..220/400) with zero-weight runs of up to 200 cells; lambda given as int / NumPy integer / float32. 89 listed cases at lambda=1e8 exceed 1e-6 and are known findings. Exact clause also over the weight alphabet {0, 1e-13, 1, 1e5} (all patterns of length 4..6).",
   note="All y covered through linearity (impulse basis) rather than enumeration of reals; n > 12 only by a deterministic family; float results are those of this CPU / LLVM target."),
  "C02": dict(
   level="exploration", design="6/C02", engine="sse-product",
@@ -82,7 +82,7 @@ CHECKS = {
  "C03": dict(
   level="exploration", design="6/C03", engine="sse-product",
   technique="bounded exhaustive enumeration of words x lambda x p against a reference PLS / 10-pass asymmetric reweighting built from the definition (float64 + long-double refinement, cross-checked with exact rationals), rounding with tie guard band",
-  text="Every word with >=2 valid cells x 6 lambdas x {none,4 p}; whits(s=), whits(sg=raster incl. -inf, also handed over transposed), p incl. 0.5, six dimension orders; deterministic long series n=50..400 incl. series that have not converged after 10 reweighting passes. Argument spellings (s, nodata, sg given with other types / layouts).",
+  text="Every word with >=2 valid cells x 6 lambdas x {none,4 p}; whits(s=), whits(sg=raster incl. -inf, also handed over transposed), p incl. 0.5, six dimension orders; deterministic long series n=50..400 incl. series that have not converged after 10 reweighting passes. Argument spellings (s, nodata, sg given with other types / layouts). float64 cubes stored time-first / time in the middle in memory.",
   note="Either neighbour accepted within 1e-5 of a rounding tie; curves leaving int16 excluded (none in scope)."),
  "C04": dict(
   level="exploration", design="6/C04", engine="sse-product",
